@@ -133,53 +133,48 @@ mod verif_c03_param_decode {
     }
 
     // ------------------------------------------------------------------------------------------------------
-    /// integer-valued parameters (VarInt and millisecond Duration kinds), value field of exactly one varint or a
-    /// truncated one.
+    /// integer-valued parameters, value field of exactly one varint or a truncated one. Run on one id of the VarInt
+    /// kind and one of the Duration kind: all twelve integer ids (`id_lists_cover_every_id`) take one of these two
+    /// match arms of `be_parameter_value` (a loop over all twelve ran 22 CPU minutes and out of memory).
     #[kani::proof]
-    #[kani::unwind(10)]
+    #[kani::unwind(12)]
     #[kani::stub(crate::varint::be_varint, be_varint_spec)]
     fn value_integer_contract() {
-        let buf: [u8; 9] = kani::any();
+        let buf: [u8; 8] = kani::any();
         let n: usize = kani::any();
-        kani::assume(n <= 9);
         // excluded: value field longer than its varint -- pinned by value_integer_surplus (expect_fail)
-        kani::assume(n == 0 || n <= varint_len(buf[0]));
-        let mut k = 0;
-        while k < INTEGER_IDS.len() {
-            value_integer_case(INTEGER_IDS[k], &buf, n);
-            k += 1;
-        }
-    }
-
-    fn value_integer_case(id: ParameterId, buf: &[u8; 9], n: usize) {
-        let r = be_parameter_value(&buf[..n], id);
+        kani::assume(n <= 8 && (n == 0 || n <= varint_len(buf[0])));
+        let whole = n != 0 && n == varint_len(buf[0]);
+        let r = be_parameter_value(&buf[..n], ParameterId::InitialMaxData);
         match &r {
-            Ok((rest, v)) => {
+            Ok((rest, ParameterValue::VarInt(d))) => {
                 assert!(rest.is_empty(), "C03.param.value.integer.ok_leaves_no_remainder");
-                assert!(v.value_type() == id.value_type(), "C03.param.value.integer.type_matches_id");
-                assert!(n == varint_len(buf[0]), "C03.param.value.integer.ok_only_on_whole_varint");
-                let x = varint_val(&buf[..]);
-                match v {
-                    ParameterValue::VarInt(d) => assert!(d.into_u64() == x, "C03.param.value.integer.value_is_rfc_varint"),
-                    ParameterValue::Duration(d) => {
-                        assert!(*d == Duration::from_millis(x), "C03.param.value.integer.duration_is_milliseconds")
-                    }
-                    _ => assert!(false, "C03.param.value.integer.type_matches_id"),
-                }
+                assert!(whole, "C03.param.value.integer.ok_only_on_whole_varint");
+                assert!(d.into_u64() == varint_val(&buf[..]), "C03.param.value.integer.value_is_rfc_varint");
             }
+            Ok(_) => assert!(false, "C03.param.value.integer.type_matches_id"),
             Err(_) => {
                 assert!(is_incomplete(&r), "C03.param.value.integer.error_is_incomplete_only");
-                assert!(n == 0 || n < varint_len(buf[0]), "C03.param.value.integer.whole_varint_accepted");
+                assert!(!whole, "C03.param.value.integer.whole_varint_accepted");
             }
         }
-        if id == ParameterId::MaxIdleTimeout {
-            kani::cover!(r.is_ok() && n == 8, "C03.param.value.integer.reach_8byte_duration");
+        let r = be_parameter_value(&buf[..n], ParameterId::MaxIdleTimeout);
+        match &r {
+            Ok((rest, ParameterValue::Duration(d))) => {
+                assert!(rest.is_empty(), "C03.param.value.integer.ok_leaves_no_remainder");
+                assert!(whole, "C03.param.value.integer.ok_only_on_whole_varint");
+                assert!(*d == Duration::from_millis(varint_val(&buf[..])), "C03.param.value.integer.duration_is_milliseconds");
+            }
+            Ok(_) => assert!(false, "C03.param.value.integer.type_matches_id"),
+            Err(_) => {
+                assert!(is_incomplete(&r), "C03.param.value.integer.error_is_incomplete_only");
+                assert!(!whole, "C03.param.value.integer.whole_varint_accepted");
+            }
         }
-        if id == ParameterId::MaxDatagramFrameSize {
-            kani::cover!(r.is_ok() && n == 1, "C03.param.value.integer.reach_1byte");
-            kani::cover!(r.is_err() && n == 0, "C03.param.value.integer.reach_empty");
-            kani::cover!(r.is_err() && n == 3, "C03.param.value.integer.reach_truncated");
-        }
+        kani::cover!(whole && n == 8, "C03.param.value.integer.reach_8byte");
+        kani::cover!(whole && n == 1, "C03.param.value.integer.reach_1byte");
+        kani::cover!(n == 0, "C03.param.value.integer.reach_empty");
+        kani::cover!(!whole && n == 3, "C03.param.value.integer.reach_truncated");
     }
 
     /// KNOWN-BAD REGION (expect_fail): an integer-valued parameter whose length field exceeds the varint inside.
